@@ -73,6 +73,8 @@ impl OperationControl for GreedyFixed {
         matcher: &'a ReMatcher,
         position: usize,
     ) -> Box<dyn Iterator<Item = usize> + 'a> {
+        #[cfg(regexml_verif)]
+        crate::verif::tick();
         let mut guard = matcher.search.len();
         if self.max < usize::MAX {
             guard = guard.min(position + self.len * self.max)
@@ -84,6 +86,8 @@ impl OperationControl for GreedyFixed {
         let mut p = position;
         let mut matches = 0;
         while p <= guard {
+            #[cfg(regexml_verif)]
+            crate::verif::tick();
             let mut it = self.operation.matches_iter(matcher, p);
             let matched = it.next().is_some();
             if matched {
@@ -150,6 +154,8 @@ impl Iterator for IntStepIterator {
     type Item = usize;
 
     fn next(&mut self) -> Option<Self::Item> {
+        #[cfg(regexml_verif)]
+        crate::verif::tick();
         let has_next = if self.step > 0 {
             self.current <= self.limit
         } else {
